@@ -1,0 +1,164 @@
+//go:build verif
+
+// Package verifhook provides named instrumentation points for the external
+// verification harness (build tag "verif"). A point can sleep, yield, count hits or
+// kill the process; actions are configured by the environment variable VERIF_POINTS or
+// at run time through Set. Format: name=action[;name=action...], actions:
+//
+//	sleep(ms[,percent])   sleep ms milliseconds with the given probability (default 100)
+//	yield([percent])      runtime.Gosched
+//	kill(n)               SIGKILL the own process on the n-th hit of this point
+//	count                 only count
+package verifhook
+
+import (
+	"fmt"
+	"math/rand"
+	"os"
+	"runtime"
+	"strconv"
+	"strings"
+	"sync"
+	"sync/atomic"
+	"syscall"
+	"time"
+)
+
+type action struct {
+	kind    string
+	ms      int
+	percent int
+	n       int64
+}
+
+var (
+	mu      sync.RWMutex
+	actions = map[string]action{}
+	hits    sync.Map // name -> *int64
+	enabled int32
+)
+
+func init() {
+	if s := os.Getenv("VERIF_POINTS"); s != "" {
+		if err := Set(s); err != nil {
+			fmt.Fprintf(os.Stderr, "verifhook: bad VERIF_POINTS: %v\n", err)
+		}
+	}
+}
+
+// Set replaces the action table.
+func Set(spec string) error {
+	m := map[string]action{}
+	for _, item := range strings.Split(spec, ";") {
+		item = strings.TrimSpace(item)
+		if item == "" {
+			continue
+		}
+		kv := strings.SplitN(item, "=", 2)
+		if len(kv) != 2 {
+			return fmt.Errorf("bad item %q", item)
+		}
+		a, err := parseAction(kv[1])
+		if err != nil {
+			return err
+		}
+		m[kv[0]] = a
+	}
+	mu.Lock()
+	actions = m
+	mu.Unlock()
+	atomic.StoreInt32(&enabled, 1)
+	return nil
+}
+
+func parseAction(s string) (action, error) {
+	s = strings.TrimSpace(s)
+	name, args := s, ""
+	if i := strings.IndexByte(s, '('); i >= 0 && strings.HasSuffix(s, ")") {
+		name, args = s[:i], s[i+1:len(s)-1]
+	}
+	var nums []int
+	for _, p := range strings.Split(args, ",") {
+		p = strings.TrimSpace(p)
+		if p == "" {
+			continue
+		}
+		v, err := strconv.Atoi(p)
+		if err != nil {
+			return action{}, fmt.Errorf("bad number in %q", s)
+		}
+		nums = append(nums, v)
+	}
+	a := action{kind: name, percent: 100}
+	switch name {
+	case "sleep":
+		if len(nums) < 1 {
+			return a, fmt.Errorf("sleep needs ms")
+		}
+		a.ms = nums[0]
+		if len(nums) > 1 {
+			a.percent = nums[1]
+		}
+	case "yield":
+		if len(nums) > 0 {
+			a.percent = nums[0]
+		}
+	case "kill":
+		a.n = 1
+		if len(nums) > 0 {
+			a.n = int64(nums[0])
+		}
+	case "count":
+	default:
+		return a, fmt.Errorf("unknown action %q", s)
+	}
+	return a, nil
+}
+
+func counter(name string) *int64 {
+	if v, ok := hits.Load(name); ok {
+		return v.(*int64)
+	}
+	v, _ := hits.LoadOrStore(name, new(int64))
+	return v.(*int64)
+}
+
+// Point marks a named location between two critical sections.
+func Point(name string) {
+	n := atomic.AddInt64(counter(name), 1)
+	if atomic.LoadInt32(&enabled) == 0 {
+		return
+	}
+	mu.RLock()
+	a, ok := actions[name]
+	mu.RUnlock()
+	if !ok {
+		return
+	}
+	switch a.kind {
+	case "sleep":
+		if a.percent >= 100 || rand.Intn(100) < a.percent {
+			time.Sleep(time.Duration(a.ms) * time.Millisecond)
+		}
+	case "yield":
+		if a.percent >= 100 || rand.Intn(100) < a.percent {
+			runtime.Gosched()
+		}
+	case "kill":
+		if n == a.n {
+			fmt.Fprintf(os.Stderr, "verifhook: kill at point %s hit %d\n", name, n)
+			_ = syscall.Kill(os.Getpid(), syscall.SIGKILL)
+			select {}
+		}
+	}
+}
+
+// Counts returns the number of hits of every point reached so far.
+func Counts() map[string]int64 {
+	out := map[string]int64{}
+	hits.Range(func(k, v any) bool {
+		out[k.(string)] = atomic.LoadInt64(v.(*int64))
+		return true
+	})
+	return out
+}
